@@ -333,7 +333,9 @@ func level2() {
 								b.Reset()
 							}
 							body := fmt.Sprintf(`{"model":%q,"max_tokens":16,"messages":[{"role":"user","content":"hi"}]}`, sp)
-							r := stack.Do(o.Addr, &stack.Req{Method: "POST", Target: rt.target, Body: []byte(body), Headers: [][2]string{{"Content-Type", "application/json"}, {"anthropic-version", "2023-06-01"}}})
+							// the body's length is declared or not (chunked): the model is named either way
+							chunked := (H+L+len(sp))%2 == 1
+							r := stack.Do(o.Addr, &stack.Req{Method: "POST", Target: rt.target, Body: []byte(body), Chunked: chunked, ChunkSize: 16, Headers: [][2]string{{"Content-Type", "application/json"}, {"anthropic-version", "2023-06-01"}}})
 							res.Add("evaluations", 1)
 							res.Add("transitions", 1)
 							res.Add("traces_validated_against_impl", 1)
